@@ -742,3 +742,22 @@ def check_label_connectivity(ctx, rule="CONNECT"):
                        f"`{U(c)[:80]}` labels with a non-default structuring element: cells touching only at edges/corners join inside the image but not across a periodic boundary, "
                        "so the number of located droplets changes when the field is translated")
     return n
+
+
+def check_dedup_metric(ctx, rule="METRIC"):
+    """The Cartesian locator removes duplicates (pieces of one droplet whose equal-volume spheres overlap across a periodic
+    boundary) with remove_overlapping: the overlap must be measured in the image's own periodic metric, i.e. the call passes
+    grid=<the mask's grid>; with the Euclidean metric the number of droplets depends on where the boundary cuts the pattern."""
+    m = ctx.model
+    fi = m.func(CART)
+    fv = view(m, fi)
+    calls = [c for c in fv.calls() if isinstance(c.func, ast.Attribute) and c.func.attr == "remove_overlapping"]
+    if len(calls) != 1:
+        ctx.undecided(rule, CART + ":dedup", fi, f"{len(calls)} remove_overlapping calls")
+        return
+    c = calls[0]
+    g = arg_or_kw(c, 1, "grid")
+    ok = g is not None and U(fv.expand(g, c, stop=("mask",))) == "mask.grid"
+    ctx.decide(ok, rule, CART + ":dedup", (fi, c), "duplicates are removed under the grid's periodic metric",
+               f"`{U(c)}` measures the overlap of the candidates without the grid: spheres that overlap only across a periodic boundary are both kept (or, for translated patterns, a different number "
+               "of droplets survives), so the count depends on where the boundary lies")
